@@ -118,20 +118,21 @@ def runDump (fl : Flags) (s : St) : St × String :=
     (r.1, showObsWith paths r.2 :: acc.2)) (s, [])
   (s, "t=" ++ hex64 (digest (abs s)) ++ "/" ++ "/".intercalate outs.reverse)
 
-def optIdx (a : Abs) (tok : String) : Option (Option Id) :=
+/-- an id that no node has: "some node that is not in the document" -/
+def noNode (s : St) : Id := s.heap.length
+
+/-- a root index or `-1` (= nil); an index that does not resolve denotes no node (the op is then
+    rejected as `bad` by `step`, as on the Go side) -/
+def optIdx (s : St) (tok : String) : Option (Option Id) :=
   if tok == "-1" then some none else do
     let i ← tok.toNat?
-    let r ← a.roots[i]?
-    pure (some r)
+    pure (some (((abs s).roots[i]?).getD (noNode s)))
 
 /-- parse "k i0 … i(k-1)" from the front -/
 def takePath (toks : List String) : Option (List Nat × List String) := do
   let k ← toks.head? >>= String.toNat?
   let ps ← parseNats ((toks.drop 1).take k)
   if ps.length == k then pure (ps, toks.drop (1 + k)) else none
-
-/-- an id that no node has: "some node that is not in the list" -/
-def noNode (s : St) : Id := s.heap.length
 
 def runOp (fl : Flags) (s : St) (toks : List String) : St × String :=
   let a := abs s
@@ -165,14 +166,14 @@ def runOp (fl : Flags) (s : St) (toks : List String) : St × String :=
   | ["af", p] => match fromHex p with
     | some p => stepShow (.addFamily p)
     | none => (s, "bad-op")
-  | ["afhw", p, h, w] => match fromHex p, optIdx a h, optIdx a w with
+  | ["afhw", p, h, w] => match fromHex p, optIdx s h, optIdx s w with
     | some p, some h, some w => stepShow (.addFamilyHW p h w)
     | _, _, _ => (s, "bad-op")
   | ["dd", r] => stepShow (.docDelete (root r))
-  | ["sh", f, i] => match optIdx a i with
+  | ["sh", f, i] => match optIdx s i with
     | some i => stepShow (.setHusband (root f) i)
     | none => (s, "bad-op")
-  | ["sw", f, i] => match optIdx a i with
+  | ["sw", f, i] => match optIdx s i with
     | some i => stepShow (.setWife (root f) i)
     | none => (s, "bad-op")
   | ["shp", f, p] => match fromHex p with
